@@ -290,6 +290,6 @@ def oracle_columns(case):
 SUBS = [
     Sub('selection_optimality', st.fixed_dictionaries({'data': c03.data_strategy(600), 'config': uni_config()}), oracle_selection,
         quick=96, thorough=1920, shrink=False),
-    Sub('selection_large_poor_fit', large_strategy(), oracle_large, quick=32, thorough=480, shrink=False),
-    Sub('per_column_configuration', column_strategy(), oracle_columns, quick=160, thorough=4800),
+    Sub('selection_large_poor_fit', large_strategy(), oracle_large, quick=32, thorough=960, shrink=False),
+    Sub('per_column_configuration', column_strategy(), oracle_columns, quick=160, thorough=9600),
 ]
